@@ -89,7 +89,7 @@ PROPS = {
     "C20": dict(kinds=["utlru", "utmap"], modes=["c20"], judge="TWIN", quick=600, thorough=20000,
                 theorems=["Verif.C20_utlru", "Verif.C20_utmap", "Verif.Utlru.ttl_ms"],
                 explain="Theorems C20_utlru / C20_utmap: clear() leaves exactly the state of a newly constructed container with the same capacity and the configured TTL; checked on the implementation by twin instances (after clear vs fresh, same continuation)."),
-    "C08": dict(kinds=ALL, modes=["single", "c18"], judge="C08", quick=120, thorough=6000,
+    "C08": dict(kinds=ALL, modes=["single", "c18"], judge="C08", quick=120, thorough=6000, struct=True,
                 theorems=REFINES + ["Verif.Rec.inv_init", "Verif.Fifo.inv_init", "Verif.Rr.inv_init", "Verif.Lfu.inv_init",
                                     "Verif.Lfuda.inv_init", "Verif.Tlru.inv_init", "Verif.Utlru.inv_init", "Verif.UtMap.inv_init",
                                     "Verif.C15_rr_bijection", "Verif.Refines.runA", "Verif.Verified.C02_bound"],
